@@ -61,6 +61,7 @@ class SpyCtl:
         self.stat_hook = None  # (real_path, stats) -> stats
         self.state = None
         self.quiet_ops = ()
+        self.executor_like = inner_cls is pathio.AsyncPathIO
 
     def vpath(self, p):
         """Real path -> (base index, virtual segments) or (None, str) when outside every base."""
@@ -122,6 +123,17 @@ class SpyFS(pathio.AbstractPathIO):
             rec["res"] = "err"
             ctl.calls.append(rec)
             ctl.net.log("Fs", **rec)
+            raise
+        except asyncio.CancelledError:
+            # executor semantics: the job has run (our inline executor runs it at submit time) although the awaiting
+            # task was cancelled before it could see the result
+            if ctl.executor_like:
+                rec["res"] = "ok"
+                rec["cancelled"] = True
+                ctl.calls.append(rec)
+                ctl.net.log("Fs", **rec)
+                if op == "open":
+                    ctl.net.log("Fs", s=s, op="close", base=base, path=segs, k=0, res="dropped", h=0)
             raise
         rec["res"] = res if isinstance(res, bool) else "ok"
         rec["_value"] = res
